@@ -1214,6 +1214,9 @@ class Interp:
             src = src.do_keys(self)
         if isinstance(src, ModelObj) and getattr(src, "set_like", False):
             return self.setdict_comp(e, g, src)
+        if isinstance(src, SymList) and getattr(src, "comp_table", None) is not None:
+            # items() of a table-like model: the loop target is bound to table.comp_item(x) for an arbitrary member x
+            return self.setdict_comp(e, g, src.comp_table, item=src.comp_table.comp_item)
         if not (isinstance(src, SymList) and getattr(src, "src_dict", None) is not None):
             return NotImplemented
         D = src.src_dict
@@ -1254,7 +1257,7 @@ class Interp:
         if ve.sort() == Val or True:
             return SymDict(dom, z3.Lambda([kv], ve), D.ksort, ve.sort())
 
-    def setdict_comp(self, e, g, src):
+    def setdict_comp(self, e, g, src, item=None):
         """{key(x): val(x) for x in S} over a set-like model S (membership array `mem`, element sort `esort`); the
         body must be pure and must not raise.  key(x) = x gives a dict on S itself, any other key an ImageDict."""
         from .values import ImageDict
@@ -1268,7 +1271,7 @@ class Interp:
             self.pure += 1
             n0 = len(self.pure_guards)
             try:
-                self.assign(g.target, Sym(at))
+                self.assign(g.target, Sym(at) if item is None else item(at))
                 out = self.eval(expr)
             finally:
                 self.pure -= 1
@@ -1303,6 +1306,21 @@ class Interp:
 
     def any_all(self, which, gen):
         vals = self.e_ListComp(ast.ListComp(elt=gen.elt, generators=gen.generators))
+        if isinstance(vals, SymList):
+            # any / all over a lazily mapped symbolic list: a fresh Boolean with a witness index / a universal fact
+            ctx = self.ctx
+            r = ctx.fresh(which, Bool)
+            w = ctx.fresh("at", Int)
+            j = z3.Int("j!any")
+            f = lambda i: self.as_formula(vals.get(i))
+            inr = lambda i: AND(i >= 0, i < vals.n)
+            if which == "any":
+                ctx.assume(z3.Implies(r, AND(inr(w), f(w))))
+                ctx.assume(z3.Implies(z3.Not(r), z3.ForAll([j], z3.Implies(inr(j), z3.Not(f(j))))))
+            else:
+                ctx.assume(z3.Implies(z3.Not(r), AND(inr(w), z3.Not(f(w)))))
+                ctx.assume(z3.Implies(r, z3.ForAll([j], z3.Implies(inr(j), f(j)))))
+            return Sym(r)
         fs = []
         for v in vals:
             if isinstance(v, Sym):
